@@ -24,12 +24,13 @@ import torch
 
 from .. import envs as E
 from .. import infer_util as U
-from ..kernel import H, HarnessError, StopRun, Streams
+from ..kernel import HarnessError, StopRun, Streams, innermost_project_frame
 from ..ref.routing import make_ref
 
 ENVS = ["tsp", "cvrp", "sdvrp", "pdp", "op", "pctsp"]
 METHODS = ["greedy", "sampling", "multistart_greedy", "augment", "augment_dihedral_8",
            "multistart_greedy_augment", "multistart_greedy_augment_dihedral_8"]
+COPY0_TOL = 1e-6  # coordinates of the identity copy: equal up to float32 rounding of (x - 0.5) + 0.5
 COORD_MODES = ["generator", "generator", "corners", "dyadic", "cluster", "collinear"]
 
 
@@ -122,6 +123,7 @@ class C15:
               "seed": rc.randrange(1 << 30), "solo": sorted(rc.sample(range(N), min(N, 4)))}
         spec = U.sample_policy_spec("am", name, rc)
         spec["kw"]["normalization"] = rc.choice(["instance", "batch", "layer"])
+        spec["kw"]["use_graph_context"] = True  # without it PDP's context crashes at B=1 (C14's finding)
         return {"cfg": cfg, "coords": mode, "instances": [E.enc_row(r) for r in rows], "aug": aug,
                 "eval": ev, "policy": spec}
 
@@ -257,10 +259,12 @@ def check_augmentation(run, env, cfg, rows, aug):
         if not torch.equal(ta["depot"], ta["locs"][:, 0]):
             run.probe("obs_stale_depot_key")  # nothing reads it after reset (observation)
     # ---- copy 0 ---------------------------------------------------------------------------------
-    if not torch.equal(ta["locs"][:B], td0["locs"]):
-        run.violate(scope, "copy0_identity", "the first copy of the augmented batch is not the original instance",
-                    constraint="copy0", max_abs=float((ta["locs"][:B] - td0["locs"]).abs().max()), **det)
-        raise StopRun()
+    d0 = float((ta["locs"][:B] - td0["locs"]).abs().max())
+    if d0 > 0:
+        run.probe("copy0_rounded")  # (x - 0.5) + 0.5 need not round-trip in float32
+    if not d0 <= COPY0_TOL:
+        run.violate(scope, "copy0_identity", f"the first copy of the augmented batch is not the original instance "
+                    f"(max coordinate difference {d0:.3g})", constraint="copy0", max_abs=d0, **det)
     # ---- isometry -------------------------------------------------------------------------------
     L0 = td0["locs"].double().tolist()
     LA = ta["locs"].double().tolist()
@@ -316,6 +320,7 @@ def check_augmentation(run, env, cfg, rows, aug):
                         f"{c0!r} on the original", constraint="cost", row=r, seq=seqs[b], **det)
             raise StopRun()
     run.log.add("aug", aug["fn"], A, B, [_hex(x) for x in ta["locs"].flatten().tolist()[:64]])
+    _observe_multifeat(run, env, cfg, rows[:B], aug)
     # ---- the environment's own cost on the augmented state ---------------------------------------------
     if name != "op" and not bad:
         T = max(len(s) for s in seqs)
@@ -334,6 +339,35 @@ def check_augmentation(run, env, cfg, rows, aug):
                                 f"original, same actions", constraint="env_cost", row=r, seq=seqs[r % B], **det)
                     raise StopRun()
         run.probe("aug_env_cost_checked")
+
+
+def _observe_multifeat(run, env, cfg, rows, aug):
+    """Observation only (no caller in the library does this): augmenting an un-reset instance with
+    feats=['locs','depot'] - does the depot undergo the same map as the customers?"""
+    from rl4co.data.transforms import StateAugmentation
+
+    if "depot" not in rows[0] or aug["seed"] % 4 != 0:
+        return
+    td = E.batch_of(cfg, [{k: v.clone() for k, v in r.items()} for r in rows])
+    torch.manual_seed(aug["seed"])
+    try:
+        ta = StateAugmentation(num_augment=aug["num_augment"], augment_fn=aug["fn"],
+                               feats=["locs", "depot"])(td)
+    except Exception:  # noqa: BLE001  depot is [B,2], the transforms want [B,N,2]
+        run.probe("obs_multifeat_unsupported")
+        return
+    B = len(rows)
+    same = True
+    if tuple(ta["depot"].shape) != (ta.batch_size[0], 2) or ta["locs"].shape[1:] != td["locs"].shape[1:]:
+        run.probe("obs_multifeat_unsupported")  # the transforms broadcast a [B,2] feature into something else
+        return
+    for r in range(ta.batch_size[0]):
+        p0 = [td["depot"][r % B].double().tolist()] + td["locs"][r % B].double().tolist()
+        p1 = [ta["depot"][r].double().tolist()] + ta["locs"][r].double().tolist()
+        d0, d1 = _dmat(p0), _dmat(p1)
+        if max(abs(d0[0][j] - d1[0][j]) for j in range(len(p0))) > 1e-5:
+            same = False
+    run.probe("obs_multifeat_same_map" if same else "obs_multifeat_maps_differ")
 
 
 # ------------------------------------------------------------------------------------------------
@@ -426,8 +460,28 @@ def check_evaluation(run, env, cfg, rows, ev, spec):
     torch.manual_seed(ev["seed"])
     sink = io.StringIO()
     with _RewardTap(env, events), contextlib.redirect_stdout(sink), contextlib.redirect_stderr(sink):
-        with run.guard(scope, f"evaluation ({ev['api']})", **det):
+        try:
             ret = _eval_call(env, tap, ds, ev, cfg["n"])
+        except (HarnessError, StopRun):
+            raise
+        except Exception as e:  # noqa: BLE001
+            where, f, func, _line = innermost_project_frame(e)
+            if where != "repo":
+                raise
+            if func == "check_solution_validity":
+                # the policy built its default env (check_solution=True) and the built-in checker refused a
+                # mask-generated rollout: checker vs ground truth is C06's business, not a reporting matter
+                run.probe("obs_checker_rejected_rollout:" + name)
+                return
+            if func == "select_start_nodes" and name == "op":
+                # OP instance without any feasible first move: the start-node rule is C12's business
+                run.probe("obs_op_no_feasible_start")
+                return
+            what = f"evaluation ({ev['api']})"
+            run.violate(scope, f"exception:{type(e).__name__}@{f}:{func}",
+                        f"{what}: {type(e).__name__}: {str(e)[:300]}", what=what, exc_type=type(e).__name__,
+                        exc_file=f, exc_func=func, constraint="crash", **det)
+            raise StopRun() from e
     run.fault("evaluate:" + m)
     rewards = ret["rewards"].detach().reshape(-1)
     actions = ret["actions"].detach()
@@ -457,6 +511,7 @@ def check_evaluation(run, env, cfg, rows, ev, spec):
         elif e[0] == "reward" and cur is not None:
             cur.append(e[1])
     refs = [make_ref(name, rows[i], cfg) for i in range(N)]
+    depot = name != "tsp"
     solo_cache = {}
     reported = []
     Tmax = actions.shape[1]
@@ -475,7 +530,7 @@ def check_evaluation(run, env, cfg, rows, ev, spec):
             run.violate(scope, "candidate_layout", f"policy saw {td_seen.batch_size[0]} rows for a batch of {Bc}",
                         constraint="seen_rows", **det)
             raise StopRun()
-        if not torch.equal(td_seen["locs"][:Bc], td_orig["locs"]):
+        if not float((td_seen["locs"][:Bc] - td_orig["locs"]).abs().max()) <= COPY0_TOL:
             run.violate(scope, "copy0_identity", "the first block of the state handed to the policy is not the "
                         "batch of original instances", constraint="copy0_eval", chunk=c, **det)
             raise StopRun()
@@ -486,7 +541,7 @@ def check_evaluation(run, env, cfg, rows, ev, spec):
         for a in cand_sets:
             al = a.tolist()
             for r, seq in enumerate(al):
-                key = tuple(_strip(seq))
+                key = tuple(_strip(seq, depot))
                 if key not in seen[r % Bc]:
                     seen[r % Bc].add(key)
                     cands[r % Bc].append(list(key))
@@ -509,7 +564,7 @@ def check_evaluation(run, env, cfg, rows, ev, spec):
                             f"on the original instance", constraint="objective", instance=g, chunk=c, B=Bc,
                             reported=rrep, objective=obj, actions=rep, **det)
                 raise StopRun()
-            key = _strip(rep)
+            key = _strip(rep, depot)
             if key not in cands[b]:
                 run.violate(scope, "reported_not_candidate", f"instance {g}: reported actions {rep} are none of the "
                             f"{len(cands[b])} rollouts made for it", constraint="candidate", instance=g, chunk=c,
@@ -535,8 +590,8 @@ def check_evaluation(run, env, cfg, rows, ev, spec):
                 if g not in solo_cache:
                     solo_cache[g] = _solo_greedy(run, env, cfg, rows[g], policy, scope, det)
                 sa, sr = solo_cache[g]
-                ident = _strip(out_actions[b].tolist())
-                if ident != _strip(sa):
+                ident = _strip(out_actions[b].tolist(), depot)
+                if ident != _strip(sa, depot):
                     run.probe("solo_greedy_candidate_differs")
                     run.stats["indeterminate_skipped"] += 1
                 else:
@@ -553,10 +608,11 @@ def check_evaluation(run, env, cfg, rows, ev, spec):
     run.log.add("eval", m, N, bs, reported)
 
 
-def _strip(seq):
-    """Action list without trailing zeros (padding / idle depot visits change nothing)."""
+def _strip(seq, depot=True):
+    """Action list without trailing zeros (padding / idle depot visits change nothing); node 0 of a TSP
+    is a city, nothing is stripped there."""
     seq = list(seq)
-    while seq and seq[-1] == 0:
+    while depot and seq and seq[-1] == 0:
         seq.pop()
     return seq
 
